@@ -4,6 +4,7 @@ import (
 	"fmt"
 	"go/ast"
 	"go/token"
+	"go/types"
 	"sort"
 	"strings"
 
@@ -285,5 +286,86 @@ func (c *Ctx) wholeCellValues(R string) {
 			}
 		})
 		c.check(okv, R, "a Cell value is decoded as the whole cell", f.Pos(), "val.Set(*c)", "tlb.decodeCell no longer hands out the whole cell it was given")
+	}
+}
+
+// valueReceivers: the encoders dispatch to a custom method by asserting the interface on the VALUE
+// they got from reflection (tlb.encode: o.(MarshalerTLB); tl.Marshal: o.(MarshalerTL)); unlike the
+// decoders they never try the pointer form. A custom encoder declared on the pointer receiver is
+// therefore skipped for every value held by value (struct fields, vector elements) and the generic
+// reflective encoding is emitted instead - silently different for types whose custom form is not the
+// reflective one. Every MarshalTLB / MarshalTL of the module is declared on the value receiver, and the
+// TL compiler emits value receivers.
+func (c *Ctx) valueReceivers(rule string, method string, rels ...string) int {
+	n := 0
+	for _, rel := range rels {
+		p := c.pkg(rel)
+		if p == nil {
+			continue
+		}
+		sc := p.Types.Scope()
+		names := sc.Names()
+		sort.Strings(names)
+		for _, name := range names {
+			tn, ok := sc.Lookup(name).(*types.TypeName)
+			if !ok || tn.IsAlias() {
+				continue
+			}
+			named, ok := tn.Type().(*types.Named)
+			if !ok {
+				continue
+			}
+			for i := 0; i < named.NumMethods(); i++ {
+				m := named.Method(i)
+				if m.Name() != method {
+					continue
+				}
+				n++
+				sig := m.Type().(*types.Signature)
+				_, isPtr := sig.Recv().Type().(*types.Pointer)
+				key := rel + "." + name + "." + method + " is declared on the value receiver"
+				c.check(!isPtr, rule, key, m.Pos(), "value receiver: found by the encoder's interface assertion on values", fmt.Sprintf("%s.%s.%s has a pointer receiver: the encoder asserts the interface on values, so a %s held by value (a struct field, a vector element, an argument passed by value) is encoded reflectively instead of through this method", rel, name, method, name))
+			}
+		}
+	}
+	return n
+}
+
+// generatedReceivers: the method headers the TL compiler emits.
+func (c *Ctx) generatedReceivers(rule string) {
+	p := c.pkg("tl/parser")
+	if p == nil {
+		return
+	}
+	n := 0
+	for _, f := range p.Syntax {
+		ast.Inspect(f, func(nd ast.Node) bool {
+			bl, ok := nd.(*ast.BasicLit)
+			if !ok || bl.Kind != token.STRING {
+				return true
+			}
+			s := bl.Value
+			for _, m := range []string{"MarshalTL()", "UnmarshalTL("} {
+				i := strings.Index(s, ") "+m)
+				if i < 0 {
+					continue
+				}
+				j := strings.LastIndex(s[:i], "func (")
+				if j < 0 {
+					continue
+				}
+				recv := s[j+6 : i]
+				n++
+				if m == "MarshalTL()" {
+					c.check(!strings.Contains(recv, "*"), rule, "generated MarshalTL has a value receiver", bl.Pos(), "func (t T) MarshalTL()", "the TL compiler emits MarshalTL with a pointer receiver ("+recv+"): tl.Marshal asserts the interface on values, so nested generated types and vector elements are encoded reflectively, without their mode-bit guards and constructor ids")
+				} else {
+					c.check(strings.Contains(recv, "*"), rule, "generated UnmarshalTL has a pointer receiver", bl.Pos(), "func (t *T) UnmarshalTL(r)", "the TL compiler emits UnmarshalTL with a value receiver ("+recv+"): the decoded fields are lost")
+				}
+			}
+			return true
+		})
+	}
+	if n == 0 {
+		c.bad(rule, "generated method headers", token.NoPos, "no MarshalTL/UnmarshalTL method header found in the TL compiler's templates (anchor moved?)")
 	}
 }
